@@ -44,6 +44,10 @@ type Tunnel struct {
 
 	// LastSeen is when the server received the last packet from the client
 	LastSeen time.Time
+
+	// pending holds bytes read from transportIn that have not been consumed
+	// as a packet yet
+	pending []byte
 }
 
 // Write puts the packet on the transport and updates the statistics for bytes sent
@@ -56,7 +60,7 @@ func (t *Tunnel) Write(pkt []byte) {
 // packet, with the header removed, and the packet size. It updates the
 // statistics for bytes received
 func (t *Tunnel) Read() (pt int, size int, pkt []byte, err error) {
-	pt, size, pkt, err = readMessage(t.transportIn)
+	pt, size, pkt, err = readMessage(t.transportIn, &t.pending)
 	t.BytesReceived += int64(size)
 	t.LastSeen = time.Now()
 
